@@ -367,6 +367,7 @@ func init() {
 					loc := locs[idx]
 					c := c05Case{L: L, Loc: locdom.Encode(loc)}
 					r.Evals.Add(1)
+					r.Journal(c)
 					r.Transitions.Add(8)
 					r.Traces.Add(2)
 					key := fmt.Sprintf("%d|%s", L, c.Loc)
@@ -426,6 +427,7 @@ func init() {
 				for _, lc := range raw {
 					c := c05Case{L: L, Loc: locdom.Encode(lc), Raw: true}
 					r.Evals.Add(1)
+					r.Journal(c)
 					r.Distinct.Add("raw|" + c.Loc)
 					if ok, sig, detail := c05Eval(c); !ok {
 						r.Fail(engine.Failure{Sig: sig, Case: c, Detail: detail, Size: len(c.Loc)})
@@ -446,6 +448,7 @@ func init() {
 							}
 							c := c05Case{L: n, Loc: locdom.Encode(lc), Res: iu}
 							r.Evals.Add(1)
+							r.Journal(c)
 							r.Transitions.Add(5)
 							r.Distinct.Add("iupac|" + c.Loc)
 							if ok, sig, detail := c05Eval(c); !ok {
